@@ -57,6 +57,13 @@ def configs(tier: str) -> list[dict]:
                               bound=None if thorough else 2))
     for n, p in ((4, 1), (8, 0), (8, 5), (10, 1)):
         c.append(dict(variant="fail", T=3, n=n, p=p, bound=b))
+    # -- the INPUT iterable raises (position below, at, above 2T+2) -----
+    for T, sps in ((1, (0, 1, 3, 4, 6)), (2, (0, 1, 2, 5, 6, 8))):
+        for sp in sps:
+            c.append(dict(variant="srcfail", T=T, n=sp + 3, sp=sp,
+                          bound=None if T == 1 else b))
+    c.append(dict(variant="srcfail", T=3, n=6, sp=2, bound=1))
+    c.append(dict(variant="srcfail", T=3, n=12, sp=9, bound=1))
     # two failing inputs are not needed: the first failure ends the pass
     # -- early exit, then a second complete pass on the same pool ----
     c.append(dict(variant="reuse", T=1, n=2, k=1, n2=2))
@@ -156,7 +163,7 @@ def report(ctx: core.Ctx, results: list[dict], label: str = "") -> None:
         else:
             bounded += 1
         name = (f"{label}{cfg['variant']} T={cfg['T']} n={cfg['n']}" +
-                "".join(f" {k}={cfg[k]}" for k in ("k", "p", "n2", "lines",
+                "".join(f" {k}={cfg[k]}" for k in ("k", "p", "sp", "n2", "lines",
                                                     "cache", "workers_first",
                                                     "slow") if k in cfg))
         ctx.part(name,
